@@ -9,28 +9,28 @@ from .c13 import is_for, for_parts, local_id
 
 def run(tier):
     chk = Check("C12", tier, "other",
-                "NARROW claim (linalg configuration). (1) singular-pivot guard: in LU::new the test `max_a.is_zero() -> Err` tree-dominates "
-                "every division by the pivot a[(i,i)] of the same outer iteration, max_a is the running maximum of |a[(k,i)]|.re() over the "
-                "remaining rows k in i..n, and LU values can only be built by LU::new (so solve/inverse/determinant never see an unguarded "
-                "pivot); (2) every branch condition in linalg.rs is computed from real parts (F-typed), counters and sizes, or through the "
-                "real-part based Signed / PartialOrd items of the scalar; (3) pairing: row swap, permutation swap and the parity counter are "
-                "updated in the same guarded block, the determinant is negated exactly for odd parity, the eigenvalue sort swaps the "
-                "eigenvector column together with the eigenvalue, ScalarOperand is implemented for all 8 types; (4) formula level: every "
-                "loop body of LU::new / solve / inverse and of the Jacobi sweep is evaluated once for symbolic indices and its update statements "
-                "are exactly those of the textbook schemes (Doolittle elimination, forward/back substitution on the permuted right-hand side, "
-                "Jacobi rotation g' = g - s(h + g tau), h' = h + s(g - h tau) with t, c, s, tau as in Numerical Recipes) over the textbook index "
-                "ranges; (5) the field-trait methods nalgebra's decompositions call forward to the verified dual operations. NOT decided (out of reach of "
+                "NARROW claim (linalg configuration), decided on the interpreted paths and element updates of the routines (loop nests and "
+                "iterator pipelines evaluated once for symbolic indices, store-to-load forwarding, per-element composition with canonical sums). "
+                "(1) singular-pivot guard: some path of LU::new reports an error, every path that divides by the pivot has excluded a zero pivot "
+                "magnitude, the tested magnitude is |a[m,i]| for the row m searched over i..n and that element is the pivot divided by; LU values "
+                "can only be built by LU::new; (2) branch conditions are computed from real parts, counters and sizes, or through the scalar's own "
+                "comparison items; (3) pairing per path: row exchange, permutation exchange and parity counter move together, the determinant is "
+                "the product of the pivots negated exactly for odd parity, the eigenvalue sort is ascending and exchanges eigenvector columns with "
+                "their eigenvalues; (4) formula level: the element values produced per iteration by LU::new / solve / inverse and by the Jacobi "
+                "sweep are those of the textbook schemes (Doolittle elimination with whole-row pivoting, forward/back substitution on the permuted "
+                "right-hand side, rotation g' = g - s(h + g tau), h' = h + s(g - h tau) with t, c, s, tau as in Numerical Recipes) over the textbook "
+                "index ranges; Jacobi control: early exit only on the whole strict upper triangle, rotation only with a_pq != 0, annihilation without "
+                "rotation only after testing both diagonal elements; (5) the field-trait methods nalgebra's decompositions call and the element "
+                "operations (+ - * /, compound assignment, absent parts) are the verified dual operations. NOT decided (out of reach of "
                 "a static argument here): the defining identities A x = b, A A^-1 = I, A V = V diag(lambda), Jacobi's formula, "
                 "Hellmann-Feynman, convergence of the Jacobi sweeps, conditioning-scaled tolerances, nalgebra's own decompositions.",
                 assumptions=["loop invariants of the numerical algorithms are not established"],
-                trusted_base=["rustc type checker and name resolution", "ndv-export", "structural walkers in c12.py"])
+                trusted_base=["rustc type checker and name resolution", "ndv-export", "ndvlib/interp.py", "ndvlib/rules/c12_loops.py (loop engine)"])
     F = facts.load("linalg")
     fns = {b["path"]: b for b in F.bodies.values() if b["path"].startswith("linalg::")}
     new = [b for p, b in fns.items() if p.endswith("LU::<T, F>::new")]
     if len(new) != 1:
         chk.undecide("lu|new", "missing anchor: LU::new")
-    else:
-        lu_new(chk, F, new[0])
     constructors(chk, F, fns)
     guards_real(chk, F, fns)
     scalar_operand(chk, F)
@@ -84,108 +84,6 @@ def stmts_of(block_expr):
     if b.get("tail"):
         out.append(({"s": "tail"}, b["tail"]))
     return out
-
-
-def lu_new(chk, F, body):
-    loc = body_loc(F, body)
-    # the outer pivot loop: a for loop whose body holds `if M.is_zero() { return Err(..) }` as a direct statement
-    found = None
-    for n in walk.walk_body(body):
-        if not is_for(n):
-            continue
-        fp = for_parts(n)
-        if fp is None:
-            continue
-        ivar, end, start, lbody = fp
-        if lbody["k"] != "block":
-            continue
-        for pos, (st, e) in enumerate(stmts_of(lbody)):
-            if e is None or e["k"] != "if" or e.get("else") is not None:
-                continue
-            c = peel(e["c"])
-            if c["k"] == "mcall" and c["m"] == "is_zero" and local_id(c["recv"]) is not None:
-                then_nodes = list(walk.walk(e["then"]))
-                rets = [x for x in then_nodes if x.get("k") == "ret"]
-                errs = [x for x in then_nodes if x.get("k") == "call" and (walk.callee_of(x) or {}).get("path", "").endswith("::Err")]
-                if rets and errs:
-                    found = (n, ivar, start, end, lbody, pos, local_id(c["recv"]), c)
-    if found is None:
-        chk.ob("lu|guard|present", False, "LU::new reports a zero pivot column as an error before eliminating", loc,
-               found="no `if max.is_zero() { return Err(..) }` directly inside the pivot loop", required="guard statement in the outer loop")
-        return
-    loop, ivar, start, end, lbody, gpos, mvar, cond = found
-    chk.ob("lu|guard|present", True, "LU::new reports a zero pivot column as an error before eliminating", loc, found=expr_s(cond)[:80],
-           nontrivial=False)
-    sts = stmts_of(lbody)
-    # (1a) every division by the pivot a[(i,i)] sits after the guard in the same loop body
-    divs_ok = True
-    n_div = 0
-    bad = []
-    for pos, (st, e) in enumerate(sts):
-        if e is None:
-            continue
-        for x in walk.walk(e):
-            if x.get("k") == "bin" and x["op"] == "/":
-                ip = index_pair(x["b"])
-                if ip and ip[0] == ivar and ip[1] == ivar:
-                    n_div += 1
-                    if pos <= gpos:
-                        divs_ok = False
-                        bad.append("division %s before the guard" % expr_s(x)[:60])
-    # divisions by a pivot anywhere else in the body (outside this loop) are unguarded
-    inside = set(id(x) for x in walk.walk(loop))
-    for x in walk.walk_body(body):
-        if x.get("k") == "bin" and x["op"] == "/" and id(x) not in inside:
-            ip = index_pair(x["b"])
-            if ip and ip[0] == ip[1] and ip[0] is not None:
-                divs_ok = False
-                bad.append("division by a diagonal element outside the guarded loop: %s" % expr_s(x)[:60])
-    chk.ob("lu|guard|dominates", divs_ok and n_div >= 1,
-           "the singularity guard tree-dominates every division by the pivot a[(i,i)] of the same outer iteration", loc,
-           found="; ".join(bad) or "%d pivot division(s), all after the guard" % n_div, required="guard precedes every pivot division")
-    # (1b) max_a is the running maximum of |a[(k,i)]|.re() over k in i..n
-    init_ok = False
-    scan_ok = False
-    imax_var = None
-    detail = []
-    for pos, (st, e) in enumerate(sts[:gpos]):
-        if st.get("s") == "let" and st["pat"].get("id") == mvar:
-            init = st.get("init")
-            init_ok = init is not None and init["k"] == "call" and (walk.callee_of(init) or {}).get("name") == "zero"
-        if e is not None and is_for(e):
-            fp = for_parts(e)
-            if fp is None:
-                continue
-            kvar, kend, kstart, kbody = fp
-            if local_id(kstart) != ivar or expr_s(kend) != expr_s(end):
-                detail.append("pivot search does not run over i..n")
-                continue
-            # inside: if X.re() > M { M = X.re(); .. }  with X = a[(k, i)].abs()
-            for x in walk.walk(kbody):
-                if x.get("k") == "if":
-                    c = peel(x["c"])
-                    if c["k"] == "bin" and c["op"] in (">", ">=") and local_id(c["b"]) == mvar:
-                        lhs = peel(c["a"])
-                        assigns = [y for y in walk.walk(x["then"]) if y.get("k") == "assign" and local_id(y["a"]) == mvar]
-                        if len(assigns) == 1 and expr_s(peel(assigns[0]["b"])) == expr_s(lhs) and lhs["k"] == "mcall" and lhs["m"] == "re":
-                            src = resolve_local(kbody, lhs["recv"])
-                            if src is not None and src["k"] == "mcall" and src["m"] == "abs":
-                                ip = index_pair(src["recv"])
-                                # the pivot row is recorded together with the maximum: `imax = k`
-                                argmax = [y for y in walk.walk(x["then"]) if y.get("k") == "assign" and local_id(y["a"]) not in (None, mvar)
-                                          and local_id(y["b"]) == kvar]
-                                if ip and ip[0] == kvar and ip[1] == ivar and len(argmax) == 1:
-                                    scan_ok = True
-                                    imax_var = local_id(argmax[0]["a"])
-                                elif ip and ip[0] == kvar and ip[1] == ivar:
-                                    detail.append("the row of the maximum is not recorded (`imax = k`)")
-                                else:
-                                    detail.append("pivot search reads %s" % expr_s(src)[:60])
-    other_assign = [y for y in walk.walk(lbody) if y.get("k") in ("assign", "assignop") and local_id(y["a"]) == mvar]
-    chk.ob("lu|guard|max", init_ok and scan_ok and len(other_assign) == 1,
-           "the guarded quantity is the maximum of |a[(k,i)]|.re() over the remaining rows k in i..n (initialised to zero)", loc,
-           found="init zero: %s, scan: %s, assignments: %d %s" % (init_ok, scan_ok, len(other_assign), "; ".join(detail)),
-           required="let mut max = 0; for k in i..n { if |a[(k,i)]|.re() > max { max = ... } }")
 
 
 def resolve_local(scope, e):
